@@ -162,3 +162,44 @@ def deterministic(tape=None, extra=(), clock=None):
             yield clock
     finally:
         random.setstate(state)
+
+
+class _Sink(__import__('logging').Handler):
+    """Formats every record (so lazily built log arguments are really evaluated) and drops it."""
+
+    def emit(self, record):
+        try:
+            self.format(record)
+        except Exception:
+            pass
+
+
+@contextlib.contextmanager
+def debug_logging(enabled=True, names=('playback',)):
+    """The service runs with DEBUG logging switched on for the library (a configuration like any other: nothing the
+    library logs may change what it does)."""
+    import logging
+    if not enabled:
+        yield
+        return
+    saved = []
+    sink = _Sink()
+    disabled = logging.root.manager.disable
+    logging.disable(logging.NOTSET)           # the runner silences all logging for speed
+    null = logging.NullHandler()
+    logging.root.addHandler(null)             # nothing may reach the last-resort stderr handler
+    for n in names:
+        lg = logging.getLogger(n)
+        saved.append((lg, lg.level, lg.propagate))
+        lg.setLevel(logging.DEBUG)
+        lg.addHandler(sink)
+        lg.propagate = False
+    try:
+        yield
+    finally:
+        for lg, level, prop in saved:
+            lg.removeHandler(sink)
+            lg.setLevel(level)
+            lg.propagate = prop
+        logging.root.removeHandler(null)
+        logging.disable(disabled)
